@@ -18,9 +18,13 @@ open Spec
 /-- every name but the label `secondary` -/
 def nsV : Name → Bool := fun v => decide (v ≠ secondaryLabel)
 
+/-- restriction of the multi bindings only -/
+def restrictMulti (V : Name → Bool) (env : Env) : Env :=
+  ⟨env.single, restrictL V env.multi, env.transformed⟩
+
 /-- the same single bindings, the same multi bindings except under `secondary`, the same
 `transformed` (the label records the node a relation returned: `isolate` changes that node) -/
-def EqNS (e1 e2 : Env) : Prop := restrictEnv nsV e1 = restrictEnv nsV e2
+def EqNS (e1 e2 : Env) : Prop := restrictMulti nsV e1 = restrictMulti nsV e2
 
 theorem EqNS.refl (e : Env) : EqNS e e := rfl
 theorem EqNS.symm {a b : Env} (h : EqNS a b) : EqNS b a := Eq.symm h
@@ -41,27 +45,70 @@ theorem restrictL_ainsert_not {β} (V : Name → Bool) {k : Name} (hk : V k = fa
 theorem EqNS.addLabel {a b : Env} (h : EqNS a b) (m1 m2 : Tree) :
     EqNS (a.addLabel secondaryLabel m1) (b.addLabel secondaryLabel m2) := by
   have hs : nsV secondaryLabel = false := by simp [nsV]
-  have key : ∀ (e : Env) (m : Tree), restrictEnv nsV (e.addLabel secondaryLabel m) = restrictEnv nsV e := by
+  have key : ∀ (e : Env) (m : Tree),
+      restrictMulti nsV (e.addLabel secondaryLabel m) = restrictMulti nsV e := by
     intro e m
     unfold Env.addLabel
-    split <;> simp [restrictEnv, restrictL_ainsert_not nsV hs]
+    split <;> simp [restrictMulti, restrictL_ainsert_not nsV hs]
   unfold EqNS
   rw [key, key]; exact h
 
+theorem EqNS.single {a b : Env} (h : EqNS a b) : a.single = b.single := by
+  have := congrArg Env.single (show restrictMulti nsV a = restrictMulti nsV b from h)
+  exact this
+
+theorem EqNS.transformed {a b : Env} (h : EqNS a b) : a.transformed = b.transformed := by
+  have := congrArg Env.transformed (show restrictMulti nsV a = restrictMulti nsV b from h)
+  exact this
+
 /-- what `EqNS` says, binding by binding -/
 theorem EqNS.lookups {a b : Env} (h : EqNS a b) :
-    (∀ v, v ≠ secondaryLabel → alookup v a.single = alookup v b.single) ∧
+    a.single = b.single ∧
     (∀ v, v ≠ secondaryLabel → alookup v a.multi = alookup v b.multi) ∧
     a.transformed = b.transformed := by
-  have h1 : restrictL nsV a.single = restrictL nsV b.single := congrArg Env.single h
   have h2 : restrictL nsV a.multi = restrictL nsV b.multi := congrArg Env.multi h
-  refine ⟨fun v hv => ?_, fun v hv => ?_, ?_⟩
-  · have hk : nsV v = true := by simp [nsV, hv]
-    rw [← alookup_restrictL nsV hk a.single, ← alookup_restrictL nsV hk b.single, h1]
-  · have hk : nsV v = true := by simp [nsV, hv]
-    rw [← alookup_restrictL nsV hk a.multi, ← alookup_restrictL nsV hk b.multi, h2]
-  · have h3 := congrArg Env.transformed h
-    simpa [restrictEnv] using h3
+  refine ⟨h.single, fun v hv => ?_, h.transformed⟩
+  have hk : nsV v = true := by simp [nsV, hv]
+  rw [← alookup_restrictL nsV hk a.multi, ← alookup_restrictL nsV hk b.multi, h2]
+
+theorem map_ite' {α β} (c : Prop) [Decidable c] (f : α → β) (a : α) :
+    Option.map f (if c then some a else none) = if c then some (f a) else none := by
+  split <;> rfl
+
+theorem matchNode_restrictMulti (s : Strictness) (src : Bytes) (V : Name → Bool) (f : Nat)
+    (p : PNode) (c : Tree) (st : Env) (hp : p.namesIn (fun v => V v = true)) :
+    (matchNode (envAgg src) s src f p c st).map (proj1 (restrictMulti V))
+      = matchNode (envAgg src) s src f p c (restrictMulti V st) := by
+  refine (all_proj (envAgg src) (envAgg src) (restrictMulti V) (fun v => V v = true) s src
+    ?_ ?_ ?_ f).1 p c st hp
+  · intro st t; rfl
+  · intro st mv t _
+    have hins : ∀ name,
+        (Env.insert src st name t).map (restrictMulti V) = Env.insert src (restrictMulti V st) name t := by
+      intro name
+      simp only [Env.insert]
+      have e : Env.matchVariable src (restrictMulti V st) name t = Env.matchVariable src st name t := rfl
+      rw [e, map_ite']; rfl
+    cases mv with
+    | capture name named =>
+      simp only [envAgg, matchLeafMetaVar]
+      split
+      · rfl
+      · exact hins name
+    | dropped named => simp only [envAgg, matchLeafMetaVar]; split <;> rfl
+    | multiple => rfl
+    | multiCapture name =>
+      simp only [envAgg, matchLeafMetaVar]
+      exact hins name
+  · intro st name l k hname
+    cases name with
+    | none => rfl
+    | some v =>
+      have hv := hname v rfl
+      simp only [envAgg, Env.insertMulti, Env.matchMultiVar, restrictMulti, alookup_restrictL V hv]
+      split
+      · next hc => simp [hc, restrictMulti, ainsert_restrictL V hv]
+      · next hc => simp [hc]
 
 /-- results agree: same verdict, environments equal up to the label -/
 def AgreeNS (x y : Option Tree × Env) : Prop := x.1.isSome = y.1.isSome ∧ EqNS x.2 y.2
@@ -73,10 +120,10 @@ theorem matchPatternEnv_eqNS (s : Strictness) (src : Bytes) (f : Nat) (p : PNode
     (matchPatternEnv s src f p c e1 = .ok none → matchPatternEnv s src f p c e2 = .ok none) ∧
     (∀ a, matchPatternEnv s src f p c e1 = .ok (some a) →
       ∃ b, matchPatternEnv s src f p c e2 = .ok (some b) ∧ EqNS a b) := by
-  have h1 := matchNode_restrictEnv s src nsV f p c e1 hp
-  have h2 := matchNode_restrictEnv s src nsV f p c e2 hp
-  have h12 : (matchNode (envAgg src) s src f p c e1).map (proj1 (restrictEnv nsV))
-      = (matchNode (envAgg src) s src f p c e2).map (proj1 (restrictEnv nsV)) := by
+  have h1 := matchNode_restrictMulti s src nsV f p c e1 hp
+  have h2 := matchNode_restrictMulti s src nsV f p c e2 hp
+  have h12 : (matchNode (envAgg src) s src f p c e1).map (proj1 (restrictMulti nsV))
+      = (matchNode (envAgg src) s src f p c e2).map (proj1 (restrictMulti nsV)) := by
     rw [h1, h2, h]
   clear h1 h2
   simp only [matchPatternEnv]
@@ -89,7 +136,7 @@ theorem matchPatternEnv_eqNS (s : Strictness) (src : Bytes) (f : Nat) (p : PNode
   · obtain ⟨rfl, hst⟩ := h12
     cases r1 <;> simp <;> exact hst
 
-/-! ## The fragment: no `matches`, no pattern variable called `secondary` -/
+/-! ## The fragment: no pattern variable called `secondary` -/
 
 mutual
 def Rule.isoOK : Rule → Bool
@@ -106,7 +153,7 @@ def Rule.isoOK : Rule → Bool
   | .all rs _ => Rule.isoOKList rs
   | .any rs _ => Rule.isoOKList rs
   | .not r => r.isoOK
-  | .matches _ => false
+  | .matches _ => true
 def StopBy.isoOK : StopBy → Bool
   | .neighbor => true
   | .end_ => true
@@ -122,6 +169,47 @@ theorem namesIn_nsV {p : PNode} (h : (!(p.vars.contains secondaryLabel)) = true)
   simp only [nsV, decide_eq_true_eq]
   intro e; subst e
   simp [hv] at h
+
+/-- the context the oracle evaluates the isolated rule in: every registered utility isolated
+(`Driver/RuleIO.lean`, `opOracleIsolate`) -/
+def isoCtx (ctx : RCtx) : RCtx :=
+  { ctx with locals := ctx.locals.map fun kv => (kv.1, isolate kv.2),
+             globals := ctx.globals.map fun kv => (kv.1, isolateCore kv.2) }
+
+@[simp] theorem isoCtx_src (ctx : RCtx) : (isoCtx ctx).src = ctx.src := rfl
+@[simp] theorem isoCtx_root (ctx : RCtx) : (isoCtx ctx).root = ctx.root := rfl
+@[simp] theorem isoCtx_regex (ctx : RCtx) : (isoCtx ctx).regex = ctx.regex := rfl
+
+theorem alookup_map_snd {β γ : Type} (g : β → γ) (id : Name) (l : List (Name × β)) :
+    alookup id (l.map fun kv => (kv.1, g kv.2)) = (alookup id l).map g := by
+  induction l with
+  | nil => rfl
+  | cons kv rest ih =>
+    obtain ⟨k, v⟩ := kv
+    simp only [List.map_cons, alookup]
+    split
+    · rfl
+    · exact ih
+
+theorem isoCtx_locals (ctx : RCtx) (id : Name) :
+    alookup id (isoCtx ctx).locals = (alookup id ctx.locals).map isolate :=
+  alookup_map_snd isolate id ctx.locals
+
+theorem isoCtx_globals (ctx : RCtx) (id : Name) :
+    alookup id (isoCtx ctx).globals = (alookup id ctx.globals).map isolateCore :=
+  alookup_map_snd isolateCore id ctx.globals
+
+theorem isolateCore_constraints (core : RuleCore) (v : Name) :
+    alookup v (isolateCore core).constraints = (alookup v core.constraints).map isolate := by
+  have : (isolateCore core).constraints = core.constraints.map fun kv => (kv.1, isolate kv.2) := by
+    simp only [isolateCore]
+  rw [this]; exact alookup_map_snd isolate v core.constraints
+
+/-- every registered rule (local, global, constraint) is in the fragment -/
+def RegIsoOK (ctx : RCtx) : Prop :=
+  (∀ id q, alookup id ctx.locals = some q → q.isoOK = true) ∧
+  (∀ id core, alookup id ctx.globals = some core →
+    core.rule.isoOK = true ∧ ∀ v m, alookup v core.constraints = some m → m.isoOK = true)
 
 section
 variable (ctx : RCtx)
@@ -157,48 +245,59 @@ theorem wrap_run {F : Nat} {q : Rule} {n : Tree} {e : Env} {x : Option Tree × E
             exact ⟨_, hq', .inl ⟨m, e', rfl, h.symm⟩⟩
 
 def SRule (f : Nat) : Prop :=
-  ∀ r n e1 e2 x, Rule.isoOK r = true → EqNS e1 e2 → matchRule ctx f (isolate r) n e1 = .ok x →
+  ∀ r n e1 e2 x, Rule.isoOK r = true → EqNS e1 e2 → matchRule (isoCtx ctx) f (isolate r) n e1 = .ok x →
     ∃ y, matchRule ctx f r n e2 = .ok y ∧ AgreeNS x y
 def SAll (f : Nat) : Prop :=
   ∀ rs n e1 e2 x, Rule.isoOKList rs = true → EqNS e1 e2 →
-    allLoop ctx f (isolateList rs) n e1 = .ok x →
+    allLoop (isoCtx ctx) f (isolateList rs) n e1 = .ok x →
     ∃ y, allLoop ctx f rs n e2 = .ok y ∧ x.1 = y.1 ∧ EqNS x.2 y.2
 def SAny (f : Nat) : Prop :=
   ∀ rs n e1 e2 x, Rule.isoOKList rs = true → EqNS e1 e2 →
-    anyLoop ctx f (isolateList rs) n e1 = .ok x →
+    anyLoop (isoCtx ctx) f (isolateList rs) n e1 = .ok x →
     ∃ y, anyLoop ctx f rs n e2 = .ok y ∧
       ((x = none ∧ y = none) ∨ ∃ a b, x = some a ∧ y = some b ∧ EqNS a b)
 def SFilter (f : Nat) : Prop :=
   ∀ r cs e1 e2 l, Rule.isoOK r = true → EqNS e1 e2 →
-    filterMapRule ctx f (isolate r) cs e1 = .ok l → filterMapRule ctx f r cs e2 = .ok l
+    filterMapRule (isoCtx ctx) f (isolate r) cs e1 = .ok l → filterMapRule ctx f r cs e2 = .ok l
 def SFinder (f : Nat) : Prop :=
   ∀ r field eid c e1 e2 x, Rule.isoOK r = true → EqNS e1 e2 →
-    finderStep ctx f (isolate r) field eid c e1 = .ok x →
+    finderStep (isoCtx ctx) f (isolate r) field eid c e1 = .ok x →
     ∃ y, finderStep ctx f r field eid c e2 = .ok y ∧ AgreeNS x y
 def SFindMap (f : Nat) : Prop :=
   ∀ r field eid cs e1 e2 x, Rule.isoOK r = true → EqNS e1 e2 →
-    findMapRule ctx f (isolate r) field eid cs e1 = .ok x →
+    findMapRule (isoCtx ctx) f (isolate r) field eid cs e1 = .ok x →
     ∃ y, findMapRule ctx f r field eid cs e2 = .ok y ∧ AgreeNS x y
 def SUntil (f : Nat) : Prop :=
   ∀ r s field eid st cs e1 e2 x, Rule.isoOK r = true → Rule.isoOK s = true → EqNS e1 e2 →
-    findMapUntil ctx f (isolate r) (isolate s) field eid st cs e1 = .ok x →
+    findMapUntil (isoCtx ctx) f (isolate r) (isolate s) field eid st cs e1 = .ok x →
     ∃ y, findMapUntil ctx f r s field eid st cs e2 = .ok y ∧ AgreeNS x y
 def SStopBy (f : Nat) : Prop :=
   ∀ stop r field eid once multi e1 e2 x, Rule.isoOK r = true → StopBy.isoOK stop = true →
     EqNS e1 e2 →
-    stopByFind ctx f (isolateStop stop) (isolate r) field eid once multi e1 = .ok x →
+    stopByFind (isoCtx ctx) f (isolateStop stop) (isolate r) field eid once multi e1 = .ok x →
     ∃ y, stopByFind ctx f stop r field eid once multi e2 = .ok y ∧ AgreeNS x y
 def SInside (f : Nat) : Prop :=
   ∀ r stop field n e1 e2 x, Rule.isoOK r = true → StopBy.isoOK stop = true → EqNS e1 e2 →
-    matchInside ctx f (isolate r) (isolateStop stop) field n e1 = .ok x →
+    matchInside (isoCtx ctx) f (isolate r) (isolateStop stop) field n e1 = .ok x →
     ∃ y, matchInside ctx f r stop field n e2 = .ok y ∧ AgreeNS x y
 def SHasUntil (f : Nat) : Prop :=
   ∀ r s cs e1 e2 x, Rule.isoOK r = true → Rule.isoOK s = true → EqNS e1 e2 →
-    hasUntil ctx f (isolate r) (isolate s) cs e1 = .ok x →
+    hasUntil (isoCtx ctx) f (isolate r) (isolate s) cs e1 = .ok x →
     ∃ y, hasUntil ctx f r s cs e2 = .ok y ∧ AgreeNS x y
+def SCons (f : Nat) : Prop :=
+  ∀ (cons icons : List (Name × Rule)) L e1 e2 x,
+    (∀ v, alookup v icons = (alookup v cons).map isolate) →
+    (∀ v m, alookup v cons = some m → Rule.isoOK m = true) → EqNS e1 e2 →
+    constraintLoop (isoCtx ctx) f icons L e1 = .ok x →
+    ∃ y, constraintLoop ctx f cons L e2 = .ok y ∧ x.1 = y.1 ∧ EqNS x.2 y.2
+def SCore (f : Nat) : Prop :=
+  ∀ core n e1 e2 x, Rule.isoOK core.rule = true →
+    (∀ v m, alookup v core.constraints = some m → Rule.isoOK m = true) → EqNS e1 e2 →
+    matchCore (isoCtx ctx) f (isolateCore core) n e1 = .ok x →
+    ∃ y, matchCore ctx f core n e2 = .ok y ∧ AgreeNS x y
 def SHas (f : Nat) : Prop :=
   ∀ r stop field n e1 e2 x, Rule.isoOK r = true → StopBy.isoOK stop = true → EqNS e1 e2 →
-    matchHas ctx f (isolate r) (isolateStop stop) field n e1 = .ok x →
+    matchHas (isoCtx ctx) f (isolate r) (isolateStop stop) field n e1 = .ok x →
     ∃ y, matchHas ctx f r stop field n e2 = .ok y ∧ AgreeNS x y
 
 end
@@ -225,7 +324,7 @@ theorem s_all_step (f : Nat) (hR : SRule ctx f) (hA : SAll ctx f) : SAll ctx (f 
   | cons r rs =>
     simp only [Rule.isoOKList, Bool.and_eq_true] at hv
     simp only [isolateList, allLoop] at h ⊢
-    rcases hq : matchRule ctx f (isolate r) n e1 with err | ⟨m, e1'⟩
+    rcases hq : matchRule (isoCtx ctx) f (isolate r) n e1 with err | ⟨m, e1'⟩
     · rw [hq] at h; cases h
     · rw [hq] at h
       obtain ⟨y0, hy0, hag⟩ := hR _ _ _ _ _ hv.1 he hq
@@ -244,7 +343,7 @@ theorem s_any_step (f : Nat) (hR : SRule ctx f) (hA : SAny ctx f) : SAny ctx (f 
   | cons r rs =>
     simp only [Rule.isoOKList, Bool.and_eq_true] at hv
     simp only [isolateList, anyLoop] at h ⊢
-    rcases hq : matchRule ctx f (isolate r) n e1 with err | ⟨m, e1'⟩
+    rcases hq : matchRule (isoCtx ctx) f (isolate r) n e1 with err | ⟨m, e1'⟩
     · rw [hq] at h; cases h
     · rw [hq] at h
       obtain ⟨y0, hy0, hag⟩ := hR _ _ _ _ _ hv.1 he hq
@@ -260,13 +359,13 @@ theorem s_filter_step (f : Nat) (hR : SRule ctx f) (hF : SFilter ctx f) : SFilte
   | nil => simp only [filterMapRule] at h ⊢; exact h
   | cons c cs =>
     simp only [filterMapRule] at h ⊢
-    rcases hq : matchRule ctx f (isolate r) c e1 with err | ⟨m, e1'⟩
+    rcases hq : matchRule (isoCtx ctx) f (isolate r) c e1 with err | ⟨m, e1'⟩
     · rw [hq] at h; cases h
     · rw [hq] at h
       obtain ⟨y0, hy0, hag⟩ := hR _ _ _ _ _ hv he hq
       rw [hy0]
       simp only at h ⊢
-      rcases hfr : filterMapRule ctx f (isolate r) cs e1 with err | rest
+      rcases hfr : filterMapRule (isoCtx ctx) f (isolate r) cs e1 with err | rest
       · rw [hfr] at h; cases h
       · rw [hfr] at h
         rw [hF _ _ _ _ _ hv he hfr]
@@ -304,7 +403,7 @@ theorem s_findMap_step (f : Nat) (hF : SFinder ctx f) (hM : SFindMap ctx f) :
     subst h; exact ⟨_, rfl, rfl, he⟩
   | cons c cs =>
     simp only [findMapRule] at h ⊢
-    rcases hq : finderStep ctx f (isolate r) field eid c e1 with err | ⟨m, e1'⟩
+    rcases hq : finderStep (isoCtx ctx) f (isolate r) field eid c e1 with err | ⟨m, e1'⟩
     · rw [hq] at h; cases h
     · rw [hq] at h
       obtain ⟨y0, hy0, hag⟩ := hF _ _ _ _ _ _ _ hv he hq
@@ -329,13 +428,13 @@ theorem s_until_step (f : Nat) (hR : SRule ctx f) (hF : SFinder ctx f) (hU : SUn
       subst h; exact ⟨_, rfl, rfl, he⟩
     | false =>
       simp only [Bool.false_eq_true, ↓reduceIte] at h ⊢
-      rcases hs : matchRule ctx f (isolate s) c Env.empty with err | ⟨sm, se⟩
+      rcases hs : matchRule (isoCtx ctx) f (isolate s) c Env.empty with err | ⟨sm, se⟩
       · rw [hs] at h; cases h
       · rw [hs] at h
         obtain ⟨ys, hys, hags⟩ := hR _ _ _ _ _ hsv (EqNS.refl _) hs
         rw [hys]
         simp only at h ⊢
-        rcases hq : finderStep ctx f (isolate r) field eid c e1 with err | ⟨m, e1'⟩
+        rcases hq : finderStep (isoCtx ctx) f (isolate r) field eid c e1 with err | ⟨m, e1'⟩
         · rw [hq] at h; cases h
         · rw [hq] at h
           obtain ⟨y0, hy0, hag⟩ := hF _ _ _ _ _ _ _ hv he hq
@@ -380,21 +479,21 @@ theorem s_hasUntil_step (f : Nat) (hR : SRule ctx f) (hH : SHasUntil ctx f) :
     subst h; exact ⟨_, rfl, rfl, he⟩
   | cons c cs =>
     simp only [hasUntil] at h ⊢
-    rcases hq : matchRule ctx f (isolate r) c e1 with err | ⟨m, e1'⟩
+    rcases hq : matchRule (isoCtx ctx) f (isolate r) c e1 with err | ⟨m, e1'⟩
     · rw [hq] at h; cases h
     · rw [hq] at h
       obtain ⟨y0, hy0, hag⟩ := hR _ _ _ _ _ hv he hq
       rw [hy0]
       rcases agree_cases hag with ⟨rfl, e2', rfl, he'⟩ | ⟨a, b, e2', rfl, rfl, he'⟩
       · simp only at h ⊢
-        rcases hs : matchRule ctx f (isolate s) c Env.empty with err | ⟨sm, se⟩
+        rcases hs : matchRule (isoCtx ctx) f (isolate s) c Env.empty with err | ⟨sm, se⟩
         · rw [hs] at h; cases h
         · rw [hs] at h
           obtain ⟨ys, hys, hags⟩ := hR _ _ _ _ _ hsv (EqNS.refl _) hs
           rw [hys]
           rcases agree_cases hags with ⟨rfl, se', rfl, _⟩ | ⟨a, b, se', rfl, rfl, _⟩
           · simp only at h ⊢
-            rcases hh : hasUntil ctx f (isolate r) (isolate s) c.children e1' with err | ⟨m2, e1''⟩
+            rcases hh : hasUntil (isoCtx ctx) f (isolate r) (isolate s) c.children e1' with err | ⟨m2, e1''⟩
             · rw [hh] at h; cases h
             · rw [hh] at h
               obtain ⟨y2, hy2, hag2⟩ := hH _ _ _ _ _ _ hv hsv he' hh
@@ -428,14 +527,14 @@ theorem s_has_step (f : Nat) (hR : SRule ctx f) (hM : SFindMap ctx f) (hHU : SHa
       | rule s =>
         have hsv' : s.isoOK = true := by simpa [StopBy.isoOK] using hsv
         simp only [isolateStop] at h ⊢
-        rcases hq : matchRule ctx f (isolate r) nd e1 with err | ⟨m, e1'⟩
+        rcases hq : matchRule (isoCtx ctx) f (isolate r) nd e1 with err | ⟨m, e1'⟩
         · rw [hq] at h; cases h
         · rw [hq] at h
           obtain ⟨y0, hy0, hag⟩ := hR _ _ _ _ _ hv he hq
           rw [hy0]
           rcases agree_cases hag with ⟨rfl, e2', rfl, he'⟩ | ⟨a, b, e2', rfl, rfl, he'⟩
           · simp only at h ⊢
-            rcases hs : matchRule ctx f (isolate s) nd Env.empty with err | ⟨sm, se⟩
+            rcases hs : matchRule (isoCtx ctx) f (isolate s) nd Env.empty with err | ⟨sm, se⟩
             · rw [hs] at h; cases h
             · rw [hs] at h
               obtain ⟨ys, hys, hags⟩ := hR _ _ _ _ _ hsv' (EqNS.refl _) hs
@@ -459,6 +558,67 @@ end
 
 section
 variable (ctx : RCtx)
+
+theorem s_cons_step (f : Nat) (hR : SRule ctx f) (hC : SCons ctx f) : SCons ctx (f + 1) := by
+  intro cons icons L e1 e2 x hic hok he h
+  cases L with
+  | nil =>
+    simp only [constraintLoop, Except.ok.injEq] at h ⊢
+    subst h; exact ⟨_, rfl, rfl, he⟩
+  | cons b rest =>
+    obtain ⟨v, cand⟩ := b
+    simp only [constraintLoop] at h ⊢
+    rw [hic v] at h
+    cases hl : alookup v cons with
+    | none =>
+      rw [hl] at h
+      simp only [Option.map_none] at h ⊢
+      exact hC _ _ _ _ _ _ hic hok he h
+    | some m =>
+      rw [hl] at h
+      simp only [Option.map_some] at h ⊢
+      rcases hq : matchRule (isoCtx ctx) f (isolate m) cand e1 with err | ⟨o, e1'⟩
+      · rw [hq] at h; cases h
+      · rw [hq] at h
+        obtain ⟨y0, hy0, hag⟩ := hR _ _ _ _ _ (hok v m hl) he hq
+        rw [hy0]
+        rcases agree_cases hag with ⟨rfl, e2', rfl, he'⟩ | ⟨a, b, e2', rfl, rfl, he'⟩
+        · simp only [Except.ok.injEq] at h ⊢
+          subst h; exact ⟨_, rfl, rfl, he'⟩
+        · exact hC _ _ _ _ _ _ hic hok he' h
+
+theorem s_core_step (f : Nat) (hR : SRule ctx f) (hC : SCons ctx f) : SCore ctx (f + 1) := by
+  intro core n e1 e2 x hrk hck he h
+  have hk : (isolateCore core).kinds = core.kinds := rfl
+  have hrl : (isolateCore core).rule = isolate core.rule := rfl
+  simp only [matchCore, hk, hrl] at h ⊢
+  by_cases hg : (!kindsGate core.kinds n) = true
+  · rw [if_pos hg] at h ⊢
+    simp only [Except.ok.injEq] at h ⊢
+    subst h; exact ⟨_, rfl, rfl, he⟩
+  · rw [if_neg hg] at h ⊢
+    rcases hq : matchRule (isoCtx ctx) f (isolate core.rule) n e1 with err | ⟨o, e1'⟩
+    · rw [hq] at h; cases h
+    · rw [hq] at h
+      obtain ⟨y0, hy0, hag⟩ := hR _ _ _ _ _ hrk he hq
+      rw [hy0]
+      rcases agree_cases hag with ⟨rfl, e2', rfl, he'⟩ | ⟨a, b, e2', rfl, rfl, he'⟩
+      · simp only [Except.ok.injEq] at h ⊢
+        subst h; exact ⟨_, rfl, rfl, he⟩
+      · simp only at h ⊢
+        rw [← he'.single]
+        rcases hc : constraintLoop (isoCtx ctx) f (isolateCore core).constraints
+            (sortByName e1'.single) e1' with err | ⟨bb, e1''⟩
+        · rw [hc] at h; cases h
+        · rw [hc] at h
+          obtain ⟨y1, hy1, hb, he''⟩ := hC core.constraints _ _ _ _ _ (isolateCore_constraints core) hck he' hc
+          rw [hy1]
+          obtain ⟨b2, e2''⟩ := y1
+          simp only at hb he''
+          subst hb
+          cases bb <;> simp only [Except.ok.injEq] at h ⊢ <;> subst h
+          · exact ⟨_, rfl, rfl, he⟩
+          · exact ⟨_, rfl, rfl, he''⟩
 
 theorem wrap_agree {n : Tree} {e1 e2 : Env} {x x0 y : Option Tree × Env} {F : Nat} {r : Rule}
     (hx : (∃ m e', x0 = (some m, e') ∧ x = (some n, e')) ∨ (∃ e', x0 = (none, e') ∧ x = (none, e1)))
@@ -484,14 +644,31 @@ theorem withLabel_agree {X1 X2 : Except Abn (Option Tree × Env)} {a b x0 : Opti
   · simp only [withLabel, Except.ok.injEq] at h ⊢
     subst h; exact ⟨_, rfl, rfl, he'.addLabel m1 m2⟩
 
-theorem s_rule_step (f : Nat) (hR : SRule ctx f) (hAl : SAll ctx f) (hAn : SAny ctx f)
-    (hFi : SFilter ctx f) (hI : SInside ctx f) (hH : SHas ctx f) (hS : SStopBy ctx f) :
+/-- rule forms that consult nothing but the document: the same run in both contexts -/
+theorem iso_atomic (F : Nat) (r : Rule) (n : Tree) (e : Env)
+    (hr : (∃ p k s, r = .pattern p k s) ∨ (∃ k, r = .kind k) ∨ (∃ i, r = .regex i) ∨
+      (∃ a b c d, r = .range a b c d) ∨ (∃ a b rev, r = .nthChild a b none rev)) :
+    matchRule (isoCtx ctx) F r n e = matchRule ctx F r n e := by
+  cases F with
+  | zero => simp [matchRule]
+  | succ F =>
+    rcases hr with ⟨p, k, s, rfl⟩ | ⟨k, rfl⟩ | ⟨i, rfl⟩ | ⟨a, b, c, d, rfl⟩ | ⟨a, b, rev, rfl⟩
+    · cases k <;> simp only [matchRule] <;> rfl
+    · simp only [matchRule]
+    · simp only [matchRule]; rfl
+    · simp only [matchRule]; rfl
+    · simp only [matchRule]; rfl
+
+theorem s_rule_step (hreg : RegIsoOK ctx) (f : Nat) (hR : SRule ctx f) (hAl : SAll ctx f)
+    (hAn : SAny ctx f) (hFi : SFilter ctx f) (hI : SInside ctx f) (hH : SHas ctx f)
+    (hS : SStopBy ctx f) (hCo : SCore ctx f) :
     SRule ctx (f + 1) := by
   intro r n e1 e2 x hv he h
   cases r with
   | pattern p k s =>
     simp only [isolate] at h
-    obtain ⟨x0, hq, hx⟩ := wrap_run ctx h
+    obtain ⟨x0, hq, hx⟩ := wrap_run (isoCtx ctx) h
+    rw [iso_atomic ctx _ _ _ _ (.inl ⟨_, _, _, rfl⟩)] at hq
     have hp := matchPatternEnv_eqNS s ctx.src (matchFuel p n) p n e1 e2
       (namesIn_nsV (by simpa [Rule.isoOK] using hv)) he
     suffices hmain : ∃ y, matchRule ctx (f + 1) (.pattern p k s) n e2 = .ok y ∧ AgreeNS x0 y by
@@ -534,38 +711,41 @@ theorem s_rule_step (f : Nat) (hR : SRule ctx f) (hAl : SAll ctx f) (hAn : SAny 
             simp only [Except.ok.injEq] at hq ⊢
             subst hq; exact ⟨_, rfl, rfl, hab⟩
   | kind kd =>
-    simp only [isolate, matchRule, Except.ok.injEq] at h ⊢
+    simp only [isolate] at h
+    rw [iso_atomic ctx _ _ _ _ (.inr (.inl ⟨_, rfl⟩))] at h
+    simp only [matchRule, Except.ok.injEq] at h ⊢
     subst h; exact ⟨_, rfl, rfl, he⟩
   | regex id =>
-    simp only [isolate, matchRule, Except.ok.injEq] at h ⊢
+    simp only [isolate] at h
+    rw [iso_atomic ctx _ _ _ _ (.inr (.inr (.inl ⟨_, rfl⟩)))] at h
+    simp only [matchRule, Except.ok.injEq] at h ⊢
     subst h; exact ⟨_, rfl, rfl, he⟩
   | range sl sc el ec =>
-    simp only [isolate, matchRule] at h ⊢
-    split at h
-    · next h1 =>
-      rw [if_pos h1]
+    simp only [isolate] at h
+    rw [iso_atomic ctx _ _ _ _ (.inr (.inr (.inr (.inl ⟨_, _, _, _, rfl⟩))))] at h
+    simp only [matchRule] at h ⊢
+    by_cases h1 : (sl != lineOfOffset ctx.src n.start || el != lineOfOffset ctx.src n.stop) = true
+    · rw [if_pos h1] at h ⊢
       simp only [Except.ok.injEq] at h ⊢
       subst h; exact ⟨_, rfl, rfl, he⟩
-    · next h1 =>
-      rw [if_neg h1]
-      split at h
-      · next h2 =>
-        rw [if_pos h2]
+    · rw [if_neg h1] at h ⊢
+      by_cases h2 : (sc != charColOfOffset ctx.src n.start || ec != charColOfOffset ctx.src n.stop) = true
+      · rw [if_pos h2] at h ⊢
         simp only [Except.ok.injEq] at h ⊢
         subst h; exact ⟨_, rfl, rfl, he⟩
-      · next h2 =>
-        rw [if_neg h2]
+      · rw [if_neg h2] at h ⊢
         simp only [Except.ok.injEq] at h ⊢
         subst h; exact ⟨_, rfl, rfl, he⟩
   | nthChild a b ofRule reverse =>
     cases ofRule with
     | none =>
       simp only [isolate] at h
-      obtain ⟨x0, hq, hx⟩ := wrap_run ctx h
+      obtain ⟨x0, hq, hx⟩ := wrap_run (isoCtx ctx) h
       suffices hmain : ∃ y, matchRule ctx (f + 1) (.nthChild a b none reverse) n e2 = .ok y ∧
           AgreeNS x0 y by
         obtain ⟨y, hy, hag⟩ := hmain
         exact ⟨y, hy, wrap_agree ctx hx hag hy he⟩
+      rw [iso_atomic ctx _ _ _ _ (.inr (.inr (.inr (.inr ⟨_, _, _, rfl⟩))))] at hq
       simp only [matchRule] at hq ⊢
       cases hpar : parentOf ctx.root n with
       | none =>
@@ -590,12 +770,12 @@ theorem s_rule_step (f : Nat) (hR : SRule ctx f) (hAl : SAll ctx f) (hAn : SAny 
     | some rule =>
       have hv' : rule.isoOK = true := by simpa [Rule.isoOK] using hv
       simp only [isolate] at h
-      obtain ⟨x0, hq, hx⟩ := wrap_run ctx h
+      obtain ⟨x0, hq, hx⟩ := wrap_run (isoCtx ctx) h
       suffices hmain : ∃ y, matchRule ctx (f + 1) (.nthChild a b (some rule) reverse) n e2 = .ok y ∧
           AgreeNS x0 y by
         obtain ⟨y, hy, hag⟩ := hmain
         exact ⟨y, hy, wrap_agree ctx hx hag hy he⟩
-      simp only [matchRule] at hq ⊢
+      simp only [isoCtx_src, isoCtx_root, isoCtx_regex, matchRule] at hq ⊢
       cases hpar : parentOf ctx.root n with
       | none =>
         rw [hpar] at hq
@@ -604,7 +784,7 @@ theorem s_rule_step (f : Nat) (hR : SRule ctx f) (hAl : SAll ctx f) (hAn : SAny 
       | some parent =>
         rw [hpar] at hq
         simp only at hq ⊢
-        rcases hfm : filterMapRule ctx f (isolate rule)
+        rcases hfm : filterMapRule (isoCtx ctx) f (isolate rule)
           (List.filter (fun x => x.named) parent.children) e1 with err | kids0
         · rw [hfm] at hq; cases hq
         · rw [hfm] at hq
@@ -627,7 +807,7 @@ theorem s_rule_step (f : Nat) (hR : SRule ctx f) (hAl : SAll ctx f) (hAn : SAny 
             | true =>
               rw [hmt] at hq
               simp only at hq ⊢
-              rcases hm : matchRule ctx f (isolate rule) n e1 with err | ⟨m, e1'⟩
+              rcases hm : matchRule (isoCtx ctx) f (isolate rule) n e1 with err | ⟨m, e1'⟩
               · rw [hm] at hq; cases hq
               · rw [hm] at hq
                 obtain ⟨y0, hy0, hag⟩ := hR _ _ _ _ _ hv' he hm
@@ -639,13 +819,13 @@ theorem s_rule_step (f : Nat) (hR : SRule ctx f) (hAl : SAll ctx f) (hAn : SAny 
                   subst hq; exact ⟨_, rfl, rfl, he'⟩
   | all rs kinds =>
     have hv' : Rule.isoOKList rs = true := by simpa [Rule.isoOK] using hv
-    simp only [isolate, matchRule] at h ⊢
+    simp only [isoCtx_src, isoCtx_root, isoCtx_regex, isolate, matchRule] at h ⊢
     by_cases hk : (!kindsGate kinds n) = true
     · rw [if_pos hk] at h ⊢
       simp only [Except.ok.injEq] at h ⊢
       subst h; exact ⟨_, rfl, rfl, he⟩
     · rw [if_neg hk] at h ⊢
-      rcases ha : allLoop ctx f (isolateList rs) n e1 with err | ⟨b, e1'⟩
+      rcases ha : allLoop (isoCtx ctx) f (isolateList rs) n e1 with err | ⟨b, e1'⟩
       · rw [ha] at h; cases h
       · rw [ha] at h
         obtain ⟨y0, hy0, hb, he'⟩ := hAl _ _ _ _ _ hv' he ha
@@ -658,13 +838,13 @@ theorem s_rule_step (f : Nat) (hR : SRule ctx f) (hAl : SAll ctx f) (hAn : SAny 
         · exact ⟨_, rfl, rfl, he'⟩
   | any rs kinds =>
     have hv' : Rule.isoOKList rs = true := by simpa [Rule.isoOK] using hv
-    simp only [isolate, matchRule] at h ⊢
+    simp only [isoCtx_src, isoCtx_root, isoCtx_regex, isolate, matchRule] at h ⊢
     by_cases hk : (!kindsGate kinds n) = true
     · rw [if_pos hk] at h ⊢
       simp only [Except.ok.injEq] at h ⊢
       subst h; exact ⟨_, rfl, rfl, he⟩
     · rw [if_neg hk] at h ⊢
-      rcases ha : anyLoop ctx f (isolateList rs) n e1 with err | o
+      rcases ha : anyLoop (isoCtx ctx) f (isolateList rs) n e1 with err | o
       · rw [ha] at h; cases h
       · rw [ha] at h
         obtain ⟨y0, hy0, hcase⟩ := hAn _ _ _ _ _ hv' he ha
@@ -676,8 +856,8 @@ theorem s_rule_step (f : Nat) (hR : SRule ctx f) (hAl : SAll ctx f) (hAn : SAny 
           subst h; exact ⟨_, rfl, rfl, hab⟩
   | not q =>
     have hv' : q.isoOK = true := by simpa [Rule.isoOK] using hv
-    simp only [isolate, matchRule] at h ⊢
-    rcases hm : matchRule ctx f (isolate q) n e1 with err | ⟨m, e1'⟩
+    simp only [isoCtx_src, isoCtx_root, isoCtx_regex, isolate, matchRule] at h ⊢
+    rcases hm : matchRule (isoCtx ctx) f (isolate q) n e1 with err | ⟨m, e1'⟩
     · rw [hm] at h; cases h
     · rw [hm] at h
       obtain ⟨y0, hy0, hag⟩ := hR _ _ _ _ _ hv' he hm
@@ -687,43 +867,69 @@ theorem s_rule_step (f : Nat) (hR : SRule ctx f) (hAl : SAll ctx f) (hAn : SAny 
         subst h; exact ⟨_, rfl, rfl, he⟩
       · simp only [Except.ok.injEq] at h ⊢
         subst h; exact ⟨_, rfl, rfl, he⟩
-  | «matches» id => simp [Rule.isoOK] at hv
+  | «matches» id =>
+    simp only [isolate] at h
+    obtain ⟨x0, hq, hx⟩ := wrap_run (isoCtx ctx) h
+    suffices hmain : ∃ y, matchRule ctx (f + 1) (.matches id) n e2 = .ok y ∧ AgreeNS x0 y by
+      obtain ⟨y, hy, hag⟩ := hmain
+      exact ⟨y, hy, wrap_agree ctx hx hag hy he⟩
+    simp only [matchRule] at hq ⊢
+    rw [isoCtx_locals] at hq
+    cases hl : alookup id ctx.locals with
+    | some q =>
+      rw [hl] at hq
+      simp only [Option.map_some] at hq ⊢
+      exact hR _ _ _ _ _ (hreg.1 id q hl) he hq
+    | none =>
+      rw [hl] at hq
+      simp only [Option.map_none] at hq ⊢
+      rw [isoCtx_globals] at hq
+      cases hg : alookup id ctx.globals with
+      | some core =>
+        rw [hg] at hq
+        simp only [Option.map_some] at hq ⊢
+        obtain ⟨h1, h2⟩ := hreg.2 id core hg
+        exact hCo _ _ _ _ _ h1 h2 he hq
+      | none =>
+        rw [hg] at hq
+        simp only [Option.map_none, Except.ok.injEq] at hq ⊢
+        subst hq; exact ⟨_, rfl, rfl, he⟩
   | inside q stop field =>
     have hv' : q.isoOK = true ∧ stop.isoOK = true := by simpa [Rule.isoOK] using hv
     simp only [isolate] at h
-    obtain ⟨x0, hq, hx⟩ := wrap_run ctx h
+    obtain ⟨x0, hq, hx⟩ := wrap_run (isoCtx ctx) h
     suffices hmain : ∃ y, matchRule ctx (f + 1) (.inside q stop field) n e2 = .ok y ∧
         AgreeNS x0 y by
       obtain ⟨y, hy, hag⟩ := hmain
       exact ⟨y, hy, wrap_agree ctx hx hag hy he⟩
-    simp only [matchRule] at hq ⊢
-    rcases hh : matchInside ctx f (isolate q) (isolateStop stop) field n e1 with err | a
+    simp only [isoCtx_src, isoCtx_root, isoCtx_regex, matchRule] at hq ⊢
+    rcases hh : matchInside (isoCtx ctx) f (isolate q) (isolateStop stop) field n e1 with err | a
     · rw [hh] at hq; simp [withLabel] at hq
     · obtain ⟨b, hb, hag⟩ := hI _ _ _ _ _ _ _ hv'.1 hv'.2 he hh
       exact withLabel_agree ctx hh hb hag hq
   | has q stop field =>
     have hv' : q.isoOK = true ∧ stop.isoOK = true := by simpa [Rule.isoOK] using hv
     simp only [isolate] at h
-    obtain ⟨x0, hq, hx⟩ := wrap_run ctx h
+    obtain ⟨x0, hq, hx⟩ := wrap_run (isoCtx ctx) h
     suffices hmain : ∃ y, matchRule ctx (f + 1) (.has q stop field) n e2 = .ok y ∧
         AgreeNS x0 y by
       obtain ⟨y, hy, hag⟩ := hmain
       exact ⟨y, hy, wrap_agree ctx hx hag hy he⟩
-    simp only [matchRule] at hq ⊢
-    rcases hh : matchHas ctx f (isolate q) (isolateStop stop) field n e1 with err | a
+    simp only [isoCtx_src, isoCtx_root, isoCtx_regex, matchRule] at hq ⊢
+    rcases hh : matchHas (isoCtx ctx) f (isolate q) (isolateStop stop) field n e1 with err | a
     · rw [hh] at hq; simp [withLabel] at hq
     · obtain ⟨b, hb, hag⟩ := hH _ _ _ _ _ _ _ hv'.1 hv'.2 he hh
       exact withLabel_agree ctx hh hb hag hq
   | precedes q stop =>
     have hv' : q.isoOK = true ∧ stop.isoOK = true := by simpa [Rule.isoOK] using hv
     simp only [isolate] at h
-    obtain ⟨x0, hq, hx⟩ := wrap_run ctx h
+    obtain ⟨x0, hq, hx⟩ := wrap_run (isoCtx ctx) h
     suffices hmain : ∃ y, matchRule ctx (f + 1) (.precedes q stop) n e2 = .ok y ∧
         AgreeNS x0 y by
       obtain ⟨y, hy, hag⟩ := hmain
       exact ⟨y, hy, wrap_agree ctx hx hag hy he⟩
-    simp only [matchRule] at hq ⊢
-    rcases hh : stopByFind ctx f (isolateStop stop) (isolate q) none n.id (nextOf ctx.root n)
+    simp only [isoCtx_src, isoCtx_root, isoCtx_regex, matchRule] at hq ⊢
+    rcases hh : stopByFind (isoCtx ctx) f (isolateStop stop) (isolate q) none n.id (nextOf ctx.root n)
       (nextAllOf ctx.root n) e1 with err | a
     · rw [hh] at hq; simp [withLabel] at hq
     · obtain ⟨b, hb, hag⟩ := hS _ _ _ _ _ _ _ _ _ hv'.1 hv'.2 he hh
@@ -731,13 +937,13 @@ theorem s_rule_step (f : Nat) (hR : SRule ctx f) (hAl : SAll ctx f) (hAn : SAny 
   | follows q stop =>
     have hv' : q.isoOK = true ∧ stop.isoOK = true := by simpa [Rule.isoOK] using hv
     simp only [isolate] at h
-    obtain ⟨x0, hq, hx⟩ := wrap_run ctx h
+    obtain ⟨x0, hq, hx⟩ := wrap_run (isoCtx ctx) h
     suffices hmain : ∃ y, matchRule ctx (f + 1) (.follows q stop) n e2 = .ok y ∧
         AgreeNS x0 y by
       obtain ⟨y, hy, hag⟩ := hmain
       exact ⟨y, hy, wrap_agree ctx hx hag hy he⟩
-    simp only [matchRule] at hq ⊢
-    rcases hh : stopByFind ctx f (isolateStop stop) (isolate q) none n.id (prevOf ctx.root n)
+    simp only [isoCtx_src, isoCtx_root, isoCtx_regex, matchRule] at hq ⊢
+    rcases hh : stopByFind (isoCtx ctx) f (isolateStop stop) (isolate q) none n.id (prevOf ctx.root n)
       (prevAllOf ctx.root n) e1 with err | a
     · rw [hh] at hq; simp [withLabel] at hq
     · obtain ⟨b, hb, hag⟩ := hS _ _ _ _ _ _ _ _ _ hv'.1 hv'.2 he hh
@@ -749,12 +955,13 @@ section
 variable (ctx : RCtx)
 
 /-- the simulation, by induction on the fuel -/
-theorem all_s (f : Nat) :
+theorem all_s (hreg : RegIsoOK ctx) (f : Nat) :
     SRule ctx f ∧ SAll ctx f ∧ SAny ctx f ∧ SFilter ctx f ∧ SFinder ctx f ∧ SFindMap ctx f ∧
-    SUntil ctx f ∧ SStopBy ctx f ∧ SInside ctx f ∧ SHasUntil ctx f ∧ SHas ctx f := by
+    SUntil ctx f ∧ SStopBy ctx f ∧ SInside ctx f ∧ SHasUntil ctx f ∧ SHas ctx f ∧ SCore ctx f ∧
+    SCons ctx f := by
   induction f with
   | zero =>
-    refine ⟨?_, ?_, ?_, ?_, ?_, ?_, ?_, ?_, ?_, ?_, ?_⟩
+    refine ⟨?_, ?_, ?_, ?_, ?_, ?_, ?_, ?_, ?_, ?_, ?_, ?_, ?_⟩
     · intro r n e1 e2 x _ _ h; simp [matchRule] at h
     · intro rs n e1 e2 x _ _ h; simp [allLoop] at h
     · intro rs n e1 e2 x _ _ h; simp [anyLoop] at h
@@ -766,27 +973,60 @@ theorem all_s (f : Nat) :
     · intro r stop field n e1 e2 x _ _ _ h; simp [matchInside] at h
     · intro r s cs e1 e2 x _ _ _ h; simp [hasUntil] at h
     · intro r stop field n e1 e2 x _ _ _ h; simp [matchHas] at h
+    · intro core n e1 e2 x _ _ _ h; simp [matchCore] at h
+    · intro cons icons L e1 e2 x _ _ _ h; simp [constraintLoop] at h
   | succ f ih =>
-    obtain ⟨hR, hAl, hAn, hFi, hF, hM, hU, hS, hI, hHU, hH⟩ := ih
-    exact ⟨s_rule_step ctx f hR hAl hAn hFi hI hH hS, s_all_step ctx f hR hAl,
+    obtain ⟨hR, hAl, hAn, hFi, hF, hM, hU, hS, hI, hHU, hH, hCo, hCn⟩ := ih
+    exact ⟨s_rule_step ctx hreg f hR hAl hAn hFi hI hH hS hCo, s_all_step ctx f hR hAl,
       s_any_step ctx f hR hAn, s_filter_step ctx f hR hFi, s_finder_step ctx f hR,
       s_findMap_step ctx f hF hM, s_until_step ctx f hR hF hU, s_stopBy_step ctx f hF hM hU,
-      s_inside_step ctx f hS, s_hasUntil_step ctx f hR hHU, s_has_step ctx f hR hM hHU⟩
+      s_inside_step ctx f hS, s_hasUntil_step ctx f hR hHU, s_has_step ctx f hR hM hHU,
+      s_core_step ctx f hR hCn, s_cons_step ctx f hR hCn⟩
 
-/-- whenever the isolated rule ends normally, so does the rule itself, with the same fuel, the
-same verdict and the same environment up to the `secondary` label -/
-theorem isolate_simulates' (f : Nat) (r : Rule) (hr : r.isoOK = true) (n : Tree) (env : Env)
-    (x : Option Tree × Env) (h : matchRule ctx f (isolate r) n env = .ok x) :
+/-- whenever the isolated rule (in the isolated context) ends normally, so does the rule itself,
+with the same fuel, the same verdict and the same environment up to the `secondary` label -/
+theorem isolate_simulates' (hreg : RegIsoOK ctx) (f : Nat) (r : Rule) (hr : r.isoOK = true) (n : Tree)
+    (env : Env) (x : Option Tree × Env) (h : matchRule (isoCtx ctx) f (isolate r) n env = .ok x) :
     ∃ y, matchRule ctx f r n env = .ok y ∧ AgreeNS x y :=
-  (all_s ctx f).1 r n env env x hr (EqNS.refl env) h
+  (all_s ctx hreg f).1 r n env env x hr (EqNS.refl env) h
 
 /-- the two evaluations agree whenever both end normally (with any two fuels) -/
-theorem isolate_agrees' (f f' : Nat) (r : Rule) (hr : r.isoOK = true) (n : Tree) (env : Env)
-    (x y : Option Tree × Env) (hx : matchRule ctx f (isolate r) n env = .ok x)
+theorem isolate_agrees' (hreg : RegIsoOK ctx) (f f' : Nat) (r : Rule) (hr : r.isoOK = true) (n : Tree)
+    (env : Env) (x y : Option Tree × Env)
+    (hx : matchRule (isoCtx ctx) f (isolate r) n env = .ok x)
     (hy : matchRule ctx f' r n env = .ok y) : AgreeNS x y := by
-  obtain ⟨y', hy', hag⟩ := isolate_simulates' ctx f r hr n env x hx
+  obtain ⟨y', hy', hag⟩ := isolate_simulates' ctx hreg f r hr n env x hx
   have h1 := matchRule_fuel_mono ctx (Nat.le_max_left f f') hy'
   have h2 := matchRule_fuel_mono ctx (Nat.le_max_right f f') hy
+  rw [h1] at h2
+  simp only [Except.ok.injEq] at h2
+  subst h2; exact hag
+
+theorem matchCore_fuel_mono {fuel fuel' : Nat} (hle : fuel ≤ fuel') {core : RuleCore} {n : Tree}
+    {env : Env} {x : Option Tree × Env} (h : matchCore ctx fuel core n env = .ok x) :
+    matchCore ctx fuel' core n env = .ok x := by
+  induction hle with
+  | refl => exact h
+  | step _ ih => exact (all_mo ctx _).2.2.2.2.2.2.2.2.2.2.2.1 _ _ _ _ ih
+
+/-- a rule core in the fragment: its rule and its constraint rules -/
+def CoreIsoOK (core : RuleCore) : Prop :=
+  core.rule.isoOK = true ∧ ∀ v m, alookup v core.constraints = some m → m.isoOK = true
+
+/-- the same for a whole rule core (what the oracle runs: `matchCore` on `isolateCore core`) -/
+theorem isolateCore_simulates' (hreg : RegIsoOK ctx) (f : Nat) (core : RuleCore) (hc : CoreIsoOK core)
+    (n : Tree) (env : Env) (x : Option Tree × Env)
+    (h : matchCore (isoCtx ctx) f (isolateCore core) n env = .ok x) :
+    ∃ y, matchCore ctx f core n env = .ok y ∧ AgreeNS x y :=
+  (all_s ctx hreg f).2.2.2.2.2.2.2.2.2.2.2.1 core n env env x hc.1 hc.2 (EqNS.refl env) h
+
+theorem isolateCore_agrees' (hreg : RegIsoOK ctx) (f f' : Nat) (core : RuleCore) (hc : CoreIsoOK core)
+    (n : Tree) (env : Env) (x y : Option Tree × Env)
+    (hx : matchCore (isoCtx ctx) f (isolateCore core) n env = .ok x)
+    (hy : matchCore ctx f' core n env = .ok y) : AgreeNS x y := by
+  obtain ⟨y', hy', hag⟩ := isolateCore_simulates' ctx hreg f core hc n env x hx
+  have h1 := matchCore_fuel_mono ctx (Nat.le_max_left f f') hy'
+  have h2 := matchCore_fuel_mono ctx (Nat.le_max_right f f') hy
   rw [h1] at h2
   simp only [Except.ok.injEq] at h2
   subst h2; exact hag
